@@ -104,6 +104,13 @@ fn exec(sc: &Scenario) -> Report {
                     len = Some(op.n0());
                     call(|| pb.set_length(op.n0()))
                 }
+                // the end comes within reach: the length becomes position + n (the next inc(n)
+                // lands exactly on it)
+                "land" => {
+                    let l = pos.saturating_add(op.n0());
+                    len = Some(l);
+                    call(|| pb.set_length(l))
+                }
                 "inc_length" => {
                     len = len.map(|l| l.saturating_add(op.n0()));
                     call(|| pb.inc_length(op.n0()))
@@ -168,7 +175,7 @@ fn exec(sc: &Scenario) -> Report {
             let forced = matches!(op.k.as_str(), "println" | "force_draw" | "mp_println" | "mp_clear" | "sib_finish" | "sib_drop" | "finish_clear");
             // (finishing / dropping a sibling and clearing paint forced frames, or none at all)
             let may_not_paint = matches!(op.k.as_str(), "mp_clear" | "sib_finish" | "sib_drop" | "finish_clear");
-            let direct = matches!(op.k.as_str(), "tick" | "set_message" | "reset" | "update" | "set_prefix" | "set_length" | "inc_length" | "dec_length" | "unset_length");
+            let direct = matches!(op.k.as_str(), "tick" | "set_message" | "reset" | "update" | "set_prefix" | "set_length" | "land" | "inc_length" | "dec_length" | "unset_length");
             let positional = matches!(op.k.as_str(), "inc" | "set_position" | "dec");
             if forced && !painted && !may_not_paint && !(op.k == "mp_println" && mp.is_none()) {
                 r.violate("C05.forced_paint", format!("{at}: a forced request painted nothing"));
@@ -438,7 +445,7 @@ impl Check for C05 {
         "C05"
     }
     fn rule_text(&self) -> String {
-        "50..400 requests (tick, set_message, set_prefix, set_length, inc_length, dec_length, unset_length, update, reset (also right after finish_and_clear) = direct ordinary; inc/dec/set_position = through the position bucket; one bar in four starts without a length; println/force_draw/mp.println/mp.clear and finishing + dropping sibling bars above the bar under test = forced, excluded from the law) on a target with refresh rate R uniform in 1..=255 or without limiter, standalone or as a MultiProgress target (one run in thirty on a real console::Term over a kernel pty); arrival gaps from a mixture: 0, 1 ns, I±{0,1 ns,1 µs}, k*I±..., 1 ms±1 ns, sub-interval uniform, seconds, hours (I = 1e9/R ns). Laws checked on the recorded paint timestamps: (1) every window of ordinary frames satisfies count <= 20 + R*T + 1 (integer arithmetic), (2) a direct ordinary request arriving >= ceil(1e9/R) ns after the last painted frame is painted, (3) after every position update the last painted frame is younger than ceil(1e9/R) ns + 1 ms, (4) on an unlimited target admitted position updates obey burst 10 / 1 per ms and a position update >= 1 ms after the last admitted one is admitted, (5) every painted frame shows the latest position, length, message and prefix. Mode ticked (one run in ten): the ordinary requests come from a steady ticker (1 ms .. 1 s) and from set_message calls while the user thread sleeps for 1..40 tick intervals, holds the bar inside suspend() for 3..90 intervals (the ticker thread waits for the bar meanwhile), prints, and the terminal may be slow (every flush takes 0.2 or 30 ms); law (1) on the times at which the frames reached the terminal. Non-trivial: >= 3 frames caused by ordinary requests. Distinct = distinct scenario hash.".into()
+        "50..400 requests (tick, set_message, set_prefix, set_length, inc_length, dec_length, unset_length, update, reset (also right after finish_and_clear) = direct ordinary; inc/dec/set_position = through the position bucket; one bar in four starts without a length; in bursts the length is moved to position + 1 and the next inc lands exactly on it, again and again; println/force_draw/mp.println/mp.clear and finishing + dropping sibling bars above the bar under test = forced, excluded from the law) on a target with refresh rate R uniform in 1..=255 or without limiter, standalone or as a MultiProgress target (one run in thirty on a real console::Term over a kernel pty); arrival gaps from a mixture: 0, 1 ns, I±{0,1 ns,1 µs}, k*I±..., 1 ms±1 ns, sub-interval uniform, seconds, hours (I = 1e9/R ns). Laws checked on the recorded paint timestamps: (1) every window of ordinary frames satisfies count <= 20 + R*T + 1 (integer arithmetic), (2) a direct ordinary request arriving >= ceil(1e9/R) ns after the last painted frame is painted, (3) after every position update the last painted frame is younger than ceil(1e9/R) ns + 1 ms, (4) on an unlimited target admitted position updates obey burst 10 / 1 per ms and a position update >= 1 ms after the last admitted one is admitted, (5) every painted frame shows the latest position, length, message and prefix. Mode ticked (one run in ten): the ordinary requests come from a steady ticker (1 ms .. 1 s) and from set_message calls while the user thread sleeps for 1..40 tick intervals, holds the bar inside suspend() for 3..90 intervals (the ticker thread waits for the bar meanwhile), prints, and the terminal may be slow (every flush takes 0.2 or 30 ms); law (1) on the times at which the frames reached the terminal. Non-trivial: >= 3 frames caused by ordinary requests. Distinct = distinct scenario hash.".into()
     }
     fn assumptions(&self) -> Vec<String> {
         vec!["time is integral nanoseconds on the virtual clock; a steady ticker is installed only in mode ticked".into()]
@@ -524,6 +531,14 @@ impl Check for C05 {
                         // finish-and-clear / reset cycles
                         ops.push(Op::new("finish_clear"));
                         ops.push(Op::new("reset"));
+                        continue;
+                    }
+                    if rng.chance(1, 5) {
+                        // the position lands exactly on the length, again and again
+                        ops.push(Op::new("land").n(1));
+                        ops.push(Op::new("gap").n(1_000_000));
+                        ops.push(Op::new("inc").n(1));
+                        ops.push(Op::new("gap").n(1_000_000));
                         continue;
                     }
                     ops.push(match rng.below(12) {
